@@ -532,7 +532,7 @@ pub fn run(ctx: &Ctx) -> i32 {
             .collect(),
     );
     stats.exhaustive.store(false, std::sync::atomic::Ordering::Relaxed);
-    let fuzz = fuzz_stage(ctx, &stats, &mut outcome, &known, "field_ops", 8, 1_500_000, 96, &[], &|a| {
+    let fuzz = fuzz_stage(ctx, &stats, &mut outcome, &known, "field_ops", 8, 300_000, 96, &[], &|a| {
         let st = Stats::new();
         real_prime_case(a, &Rec::new(&st, false))
     });
